@@ -369,13 +369,19 @@ def run(tier):
               (5, [("ranges", "rangelist", [(0x300, 0x340), (0x320, 0x330), (0x100, 0x101)])], [(0x300, 0x340), (0x320, 0x330), (0x100, 0x101)]),
               (5, [("ranges", "rnglistx", [("start_length", 0x100, 0x10), ("base_addressx", 0x1000), ("offset_pair", 0, 0x20), ("startx_endx", 0x110, 0x120)])],
                [(0x100, 0x110), (0x1000, 0x1020), (0x110, 0x120)]),
-              (5, [("ranges", "rnglistx", [("startx_length", 0x500, 0x10), ("start_end", 0x508, 0x520)])], [(0x500, 0x510), (0x508, 0x520)])]
+              (5, [("ranges", "rnglistx", [("startx_length", 0x500, 0x10), ("start_end", 0x508, 0x520)])], [(0x500, 0x510), (0x508, 0x520)]),
+              # offsets without a base entry count from the unit's low_pc (DWARF 2-4: .debug_ranges; 5: DW_RLE_offset_pair)
+              (5, [("ranges", "rnglistx", [("offset_pair", 0x10, 0x20), ("offset_pair", 0x40, 0x48)])], [(0x7010, 0x7020), (0x7040, 0x7048)], 0x7000),
+              (4, [("ranges", "rangelist", [(0x10, 0x20), (0x40, 0x48)])], [(0x7010, 0x7020), (0x7040, 0x7048)], 0x7000),
+              (3, [("ranges", "rangelist", [(0x10, 0x20)])], [(0x9010, 0x9020)], 0x9000)]
     ATC = {"low": 0x11, "high": 0x12, "ranges": 0x55}
     aunits, aexp = [], {}
-    for k, (ver, ats, pairs) in enumerate(acases):
+    for k, case in enumerate(acases):
+        ver, ats, pairs = case[:3]
+        cubase = case[3] if len(case) > 3 else 0
         did = 7000 + k
         aexp[did] = cover(pairs)
-        aunits.append({"kind": "cu", "version": ver, "table": k, "root": {"id": 7100 + k, "tag": 0x11, "attrs": [{"name": 0x11, "form": "addr", "value": 0}],
+        aunits.append({"kind": "cu", "version": ver, "table": k, "root": {"id": 7100 + k, "tag": 0x11, "attrs": [{"name": 0x11, "form": "addr", "value": cubase}],
                        "children": [{"id": did, "tag": 0x2e, "children": [], "attrs": [{"name": ATC[n], "form": f, "value": v} for n, f, v in ats]}]}})
     oa, offsa, _ = dwarfgen.build({"units": aunits}, wd, "c07addr")
     ba = D.Built(oa, offsa)
